@@ -726,7 +726,8 @@ Definition exec_micro (e : exec) (me : nat) (m : micro) : mres :=
               let e := upd_object e k (fun _ => OArc (arc_set s cnt sy)) in
               let e := if Nat.eqb cnt 0 then set_caus e me (sync_load (caus_of e me) sy Acquire) else e in
               let e := if Nat.eqb cnt 0 then ex_set_log e (LDrop k :: e_log e) else e in
-              MOk (log_op e me (if unwrap then RBool true else RUnit))
+              (* the harness reports which drop destroyed the value *)
+              MOk (log_op e me (if unwrap then RBool true else if Nat.eqb cnt 0 then RVal 1 else RUnit))
           end
       end
 
